@@ -621,7 +621,70 @@ func runDispatch(c *Ctx, r *Reporter) {
 			}
 		}
 		if len(sws) == 0 {
-			r.Undecided("validateBinaryType: no switch over the operator")
+			// an if-chain over the operator: the admitted kinds are read off the paths that end in an error report —
+			// on such a path the operator is pinned by its comparisons, and every kind the left operand's type was
+			// found different from is one the operator admits
+			admitted := opKinds{}
+			nPaths := 0
+			for _, fn := range regionFns(p.SSAFunc(fd.Obj), 2, dispatcherNames) {
+				for _, pa := range errorPaths(fn) {
+					var ops []string
+					var kinds []string
+					for _, f := range pa.facts {
+						bo, ok := f.Cond.(*ssa.BinOp)
+						if !ok {
+							continue
+						}
+						equal := (bo.Op == token.EQL) == f.Truth
+						if k, ok := bo.Y.(*ssa.Const); ok && k.Value != nil && isNamed(k.Type(), pkg.PkgPath, "Operator") {
+							if equal {
+								if sym := symByVal[k.Value.ExactString()]; sym != "" {
+									ops = append(ops, sym)
+								}
+							}
+							continue
+						}
+						if equal || !mentionsField(bo.X, "Left", 8) {
+							continue
+						}
+						switch y := bo.Y.(type) {
+						case *ssa.UnOp:
+							if g, ok := y.X.(*ssa.Global); ok {
+								switch g.Name() {
+								case "NUM_TYPE":
+									kinds = append(kinds, "num")
+								case "STRING_TYPE":
+									kinds = append(kinds, "string")
+								case "BOOL_TYPE":
+									kinds = append(kinds, "bool")
+								}
+							}
+						case *ssa.Const:
+							if namedOf(y.Type()) != nil && namedOf(y.Type()).Obj().Name() == "TypeName" {
+								for _, cn := range constsOfType(pkg.Types, "TypeName") {
+									if constant.Compare(cn.Val(), token.EQL, y.Value) && cn.Name() == "ARRAY" {
+										kinds = append(kinds, "array")
+									}
+								}
+							}
+						}
+					}
+					if len(ops) == 1 && len(kinds) > 0 {
+						nPaths++
+						for _, k := range kinds {
+							admitted.add(k, ops[0])
+						}
+					}
+				}
+			}
+			if nPaths == 0 {
+				r.Undecided("validateBinaryType: neither a switch over the operator nor error paths that pin the operator were found")
+			} else {
+				for _, kind := range []string{"num", "string", "bool", "array"} {
+					r.Check(sameSet(admitted[kind], spec[kind]), fd.QName()+"#admits:"+kind, p.Rel(fd.Decl.Pos()), "admits exactly the specification's "+kind+" operators: "+setString(admitted[kind]),
+						fmt.Sprintf("the parser admits {%s} for %s operands, the specification's table says {%s}", setString(admitted[kind]), kind, setString(spec[kind])))
+				}
+			}
 		} else {
 			admitted := opKinds{}
 			undec := false
@@ -997,8 +1060,10 @@ func runEvalOrder(c *Ctx, r *Reporter) {
 						continue
 					}
 				}
-				for _, ret := range returnsOf(h) {
-					flatten(ret.Results[0], impliedConds(ret.Block()), 0)
+				// every path through the helper, with what it has learnt about the operator on the way (an operator can be
+				// pinned by elimination over several tests, which no single dominating test shows)
+				for _, pa := range shortCircuitPaths(h) {
+					alts = append(alts, scAlt{pa.val, pa.facts})
 				}
 				holderName = ssaQName(h)
 				holderPos = p.Rel(h.Pos())
@@ -1032,7 +1097,7 @@ func runEvalOrder(c *Ctx, r *Reporter) {
 		op := ""
 		for _, f := range a.facts {
 			bo, ok := f.Cond.(*ssa.BinOp)
-			if !ok || bo.Op != token.EQL || !f.Truth {
+			if !ok || !((bo.Op == token.EQL && f.Truth) || (bo.Op == token.NEQ && !f.Truth)) {
 				continue
 			}
 			k, ok := bo.Y.(*ssa.Const)
@@ -1386,4 +1451,133 @@ func ascendingCounter(idx ssa.Value) bool {
 		step = true
 	}
 	return step
+}
+
+type scPath struct {
+	val   ssa.Value
+	facts []condFact
+}
+
+// errorPaths enumerates the paths of fn from its entry to a call that records a parse error (appendError…), with the
+// outcomes of the equality comparisons met on the way.
+func errorPaths(fn *ssa.Function) []scPath {
+	return pathsTo(fn, func(ins ssa.Instruction) bool {
+		call, ok := ins.(*ssa.Call)
+		if !ok || call.Call.StaticCallee() == nil {
+			return false
+		}
+		n := call.Call.StaticCallee().Name()
+		return n == "appendError" || n == "appendErrorForToken"
+	})
+}
+
+// shortCircuitPaths enumerates the paths through a small boolean helper: the value returned at the end of each and the
+// outcomes of the comparisons with constants met on the way (contradictory combinations are dropped).
+func shortCircuitPaths(h *ssa.Function) []scPath { return pathsTo(h, nil) }
+
+// pathsTo enumerates paths from the entry of h to its returns (stop == nil) or to the first instruction stop accepts.
+func pathsTo(h *ssa.Function, stop func(ssa.Instruction) bool) []scPath {
+	var out []scPath
+	budget := 20000
+	contradicts := func(facts []condFact, nf condFact) bool {
+		nb, ok := nf.Cond.(*ssa.BinOp)
+		if !ok {
+			return false
+		}
+		nk, ok := nb.Y.(*ssa.Const)
+		if !ok {
+			return false
+		}
+		neq := (nb.Op == token.EQL) == nf.Truth // the new fact says X == K
+		for _, f := range facts {
+			b, ok := f.Cond.(*ssa.BinOp)
+			if !ok || b.X != nb.X {
+				continue
+			}
+			k, ok := b.Y.(*ssa.Const)
+			if !ok {
+				continue
+			}
+			eq := (b.Op == token.EQL) == f.Truth
+			same := constKey(k) == constKey(nk)
+			switch {
+			case eq && neq && !same, eq && !neq && same, !eq && neq && same:
+				return true
+			}
+		}
+		return false
+	}
+	onPath := map[*ssa.BasicBlock]bool{}
+	var walk func(b, pred *ssa.BasicBlock, facts []condFact)
+	walk = func(b, pred *ssa.BasicBlock, facts []condFact) {
+		if budget <= 0 || onPath[b] || len(b.Instrs) == 0 {
+			return
+		}
+		budget--
+		onPath[b] = true
+		defer delete(onPath, b)
+		if stop != nil {
+			for _, ins := range b.Instrs {
+				if stop(ins) {
+					out = append(out, scPath{nil, append([]condFact{}, facts...)})
+					return
+				}
+			}
+		}
+		switch x := b.Instrs[len(b.Instrs)-1].(type) {
+		case *ssa.Return:
+			if len(x.Results) == 1 && stop == nil {
+				v := x.Results[0]
+				if phi, ok := v.(*ssa.Phi); ok && phi.Block() == b && pred != nil {
+					for k, pb := range b.Preds {
+						if pb == pred && k < len(phi.Edges) {
+							v = phi.Edges[k]
+						}
+					}
+				}
+				out = append(out, scPath{v, append([]condFact{}, facts...)})
+			}
+		case *ssa.If:
+			cond, flip := x.Cond, false
+			for {
+				if u, ok := cond.(*ssa.UnOp); ok && u.Op == token.NOT {
+					cond, flip = u.X, !flip
+					continue
+				}
+				break
+			}
+			bo, isCmp := cond.(*ssa.BinOp)
+			withConst := isCmp && (bo.Op == token.EQL || bo.Op == token.NEQ)
+			for i, sx := range b.Succs {
+				nf := facts
+				if isCmp && withConst {
+					f := condFact{bo, (i == 0) != flip}
+					if contradicts(facts, f) {
+						continue
+					}
+					nf = append(append([]condFact{}, facts...), f)
+				} else {
+					// any other condition (a boolean value, an ordered comparison): its outcome on this path
+					f := condFact{cond, (i == 0) != flip}
+					clash := false
+					for _, g := range facts {
+						if g.Cond == cond && g.Truth != f.Truth {
+							clash = true
+						}
+					}
+					if clash {
+						continue
+					}
+					nf = append(append([]condFact{}, facts...), f)
+				}
+				walk(sx, b, nf)
+			}
+		case *ssa.Jump:
+			walk(b.Succs[0], b, facts)
+		}
+	}
+	if len(h.Blocks) > 0 {
+		walk(h.Blocks[0], nil, nil)
+	}
+	return out
 }
